@@ -98,7 +98,7 @@ func (r *TimeRange) isInWeekdays(day time.Weekday) bool {
 }
 
 func (r *TimeRange) addWeekdayOffset(day time.Weekday, offset int) time.Weekday {
-	return (day + time.Weekday(offset)) % 7
+	return (day + time.Weekday(offset%7) + 7) % 7
 }
 
 func (r *TimeRange) isInTimeRange(t time.Time) bool {
